@@ -1148,6 +1148,14 @@ class Engine:
         ok, m = self._check([z3.Not(t)])
         if ok:
             self._found.append((label, m, list(self._pc)))
+            # witness values must be taken on THIS path (later paths rebuild the symbolic values)
+            snap = None
+            if self.snapshot is not None:
+                try:
+                    snap = self.snapshot(m)
+                except Exception as e:  # noqa
+                    snap = {"snapshot_error": repr(e)}
+            self.snapshots.append(snap)
             return False
         return True
 
@@ -1176,6 +1184,8 @@ class Engine:
         global _ENGINE
         self._todo = [[]]
         self._found = []
+        self.snapshots = []
+        self.snapshot = None
         self.reached = {}
         self.n_require = 0
         t0 = time.time()
